@@ -1993,9 +1993,9 @@ def run(ctx):
         ctx.broken("translate:c02:itemid", "untranslatable: %s" % e)
     except Exception as e:  # noqa
         ctx.broken("translate:c02:itemid", "untranslatable: %r" % e)
-    proofs_ok = ctx.lean_props(["Holpy.C02.Props"], exes=[EXE])
+    proofs_ok = ctx.lean_props(["Holpy.C02.Props", "Holpy.C02.PropsHeap"], exes=[EXE])
     if ctx.tier == "thorough" and proofs_ok:
-        ctx.lean_check_modules(["Holpy.C02.Props"])
+        ctx.lean_check_modules(["Holpy.C02.Props", "Holpy.C02.PropsHeap"])
     ctx.coverage["trusted_base"] += [
         "correspondence harness harness/props/c02.py (generators, toy rule set mirrored in Holpy/C02/Toy.lean, reference checker)",
         "Python->Lean translator for ItemID / Thm.can_prove (in harness/props/c02.py) and the Python primitives of Holpy/C02/Py.lean",
@@ -2024,38 +2024,38 @@ def run(ctx):
         else:
             rng = ctx.rng("exh-sample")
             sample = list(gen_exh_citations(idvars=(0,), statedvars=(0,), sizes=(1, 2)))
-            for _ in range(2500):
+            for _ in range(2000):
                 sample.append(cite_case([rng.choice(CITE_MENUS) for _ in range(3)], 0, 0))
-            for _ in range(2500):
+            for _ in range(2000):
                 sample.append(cite_case([rng.choice(CITE_MENUS) for _ in range(rng.choice([1, 2, 3, 3]))],
                                         rng.randrange(4), rng.randrange(3)))
             stream_check(ctx, env, sample, "exh-cite")
         # (b) nesting, (c) statements
         nest = list(gen_exh_nesting())
         if ctx.tier == "quick":
-            nest = ctx.rng("nest").sample(nest, 5000)
+            nest = ctx.rng("nest").sample(nest, 3500)
         stream_check(ctx, env, nest, "exh-nest")
         stream_check(ctx, env, list(gen_exh_two_blocks()), "exh-blocks")
         stream_check(ctx, env, list(gen_exh_gaps()), "exh-gaps", heap=True)
         stream_check(ctx, env, list(gen_shared_directed()), "shared-directed", heap=True)
-        stream_check(ctx, env, gen_shared_random(ctx.rng("shared"), ctx.scale(1500, 30000)), "shared-random", heap=True)
+        stream_check(ctx, env, gen_shared_random(ctx.rng("shared"), ctx.scale(1000, 20000)), "shared-random", heap=True)
         st = list(gen_exh_stated())
         if ctx.tier == "quick":
-            st = ctx.rng("stated").sample(st, min(len(st), 4000))
+            st = ctx.rng("stated").sample(st, min(len(st), 3000))
         for b in batches(iter(st), 40000):
             stream_check(ctx, env, b, "exh-stated")
         # (d) random
         g = RandGen(ctx.rng("random"))
         cases = []
-        for i in range(ctx.scale(4000, 120000)):
+        for i in range(ctx.scale(3000, 80000)):
             c, tags = g.case()
             cases.append(c)
             for t in tags:
                 ctx.count("perturb:" + t)
         for c in cases[:4]:
             ctx.sample(c)
-        for b in batches(iter(cases), 40000):
-            stream_check(ctx, env, b, "random", heap=True)
+        for bi, b in enumerate(batches(iter(cases), 40000)):
+            stream_check(ctx, env, b, "random", heap=(bi == 0))
         # checked_extend
         n = ctx.scale(12, 30)
         thms, proofs = gen_extend_pool(ctx.rng("extend"), n)
@@ -2137,22 +2137,28 @@ def replay(ctx, rp):
 
 MANIFEST = {
     "text": "Lean theorems about an executable model of _check_proof_item/check_proof/find_item/checked_extend with the rule layer as a "
-            "parameter (every rule set, every fuel, every proof object): accepted_justified + trace_covers (every statement that became "
-            "citable, every item reached through subproof blocks and the result have a derivation built in check order), no_gaps_exact / "
-            "no_gaps_justified (no placeholder at any depth incl. expansions), gaps_reported_exact, stated_not_stronger, "
-            "extend_admits_only_proved, and ItemID facts (can_depend_on irreflexive, transitive, precedes in document order, resolves only to "
-            "visible positions) proved about definitions translated from kernel/proof.py and kernel/thm.py on every run. The model passes the "
-            "walked position path like the code (fix C02-5) and is tied to kernel/theory.py and kernel/proof.py by differential runs on "
-            "generated proof objects over a toy rule set (exhaustive small shapes + random; ids != positions, negative and empty ids, "
-            "forward/self/closed-block citations, nested placeholders, ProofItem/Proof objects shared between places, cyclic objects, "
-            "verbatim twins); the tie compares accept/refuse, the kind of refusal (own exception vs. escaping error) and every output of an "
-            "accepted run, never message texts. Every proof the real checker accepts (toy rules and real primitive rules) is judged by an "
-            "independent reference checker.",
+            "parameter (every rule set, every fuel, every proof object). PROVED: accepted_justified + trace_covers (every statement that "
+            "became citable, every item reached through subproof blocks and the result have a derivation built in check order); "
+            "no_gaps_exact / no_gaps_justified; gaps_reported_exact; stated_not_stronger; accepted_id_is_position / shared_item_refused; "
+            "compute_only_computes (every mode: what is derived is derived by the rules from the placeholders and, under compute_only, the "
+            "stated sequents taken on trust — nothing is claimed about those); check_level_trusts_only_leq_level (checking equals checking "
+            "against the rule layer with every eval of a macro above check_level, every expansion at or below it and every ill-kinded "
+            "primitive call disabled); extend_admits_only_proved and extend_list_admits_only_proved (dict table, names may repeat and "
+            "overwrite); on the heap model (walk over the object graph, shared and cyclic objects): accepted_walk_ids, "
+            "accepted_walk_is_tree; ItemID facts (can_depend_on irreflexive, transitive, precedes in document order, resolves only to "
+            "visible positions) about definitions translated from kernel/proof.py and kernel/thm.py on every run, with proofs that do not "
+            "follow the shape of the generated code. NOT PROVED: graph_check_eq_unfolding (heap walk on a graph = tree model on its "
+            "unfolding) — tied three ways on every run instead (implementation on the graph, heap model on the graph, tree model on the "
+            "unfolding). TIE: differential runs on generated proof objects over a toy rule set (exhaustive small shapes + random; ids != "
+            "positions, negative and empty ids, forward/self/closed-block citations, nested placeholders, shared/cyclic objects, twins, "
+            "compute_only, levels 0-3, extension lists with overwritten names); accept/refuse, kind of refusal and every output of an "
+            "accepted run are compared, never message texts. Every proof the real checker accepts (toy rules, all modes, and real primitive "
+            "rules) is judged by an independent reference checker.",
     "note": "Trusted: Lean kernel, propext/Classical.choice/Quot.sound, the harness (generators, toy rule set implemented on both sides, "
-            "reference checker, translator). The rule layer is abstract: real primitive rules and macro bodies are C01/C04. A proof object "
-            "with shared parts reaches the model as its unfolding; that both runs agree is argued in Model.lean and tested, not proved. "
-            "compute_only=True is covered by correspondence only (it trusts statements by design). ProofReport step counters and "
-            "Proof.get_sorrys are not modelled.",
+            "reference checker, translator). The rule layer is abstract: real primitive rules and macro bodies are C01/C04. "
+            "graph_check_eq_unfolding is argued in Model.lean and tested, not proved; the theorems about the tree model therefore speak "
+            "about object graphs only through that tested agreement, the heap theorems speak about them directly. ProofReport step counters "
+            "and Proof.get_sorrys are not modelled.",
     "design_ref": "DESIGN.md 4/C02",
 }
 FINDINGS = [
